@@ -12,7 +12,8 @@ TRUSTED = [
 ]
 ASSUMPTIONS = [
     "shape: 1 <= sigfigs <= 5, 1 <= min <= max < 2^62 and floor(log2 min) + subBucketCountMagnitude(sigfigs) <= 62 "
-    "(outside this range New overflows int64; for max >= 2^62 or larger unit magnitudes its bucket loop does not terminate)",
+    "(exact boundary, proved as C19_new_rejects_or_terminates: for 1 <= min <= max < 2^63 New returns iff this holds; otherwise "
+    "smallestUntrackableValue wraps to 0 and the bucket loop never ends)",
     "recorded values lie in [min, max], counts passed to RecordValues are >= 0 and the total stays below 2^63",
 ]
 EXPLANATION = ("Theorems in coq/Props/C19.v about the integer model coq/Model/Hdr.v of dt/hdrhist (New's geometry, bitLen, index arithmetic, "
@@ -24,7 +25,8 @@ READY = True
 LEVEL_TEXT = ("Machine-checked Coq theorems over all shapes/values/op lists: bitLen = log2+1; every in-range value gets a valid counts index; "
               "equivalent ranges contain the value and are no wider than max(2^floor(log2 min), v/10^sigfigs); TotalCount is conserved; "
               "value_at_rank returns highestEquivalent(exact order statistic); Min/Max bracket; iterator never panics; Export/Import and "
-              "Merge-into-empty give an Equal histogram with nothing dropped. Model tied to /repo by differential correspondence on every run.")
+              "Merge-into-empty give an Equal histogram with nothing dropped; WindowedHistogram over arbitrary record/Rotate/Merge lists: "
+              "merged TotalCount = occurrences of the newest n rotation periods, Merge idempotent, Rotate drops exactly the oldest period. Model tied to /repo by differential correspondence on every run.")
 LEVEL_NOTE = ("Trusted: Coq kernel + vm_compute + primitive floats for the rank; hand-written Z model with explicit int32/int64 wraps; "
               "sigfigs->magnitude table; correspondence is differential testing (about 1.7k cases quick, incl. geometry and index internals).")
 TECHNIQUE = "Coq proof (Z.log2/shift lemmas, induction over op lists and iterator walks) + vm_compute correspondence against dt/hdrhist"
